@@ -333,11 +333,12 @@ Record case := {
   c_anchor : N;
   c_expect : list N }.
 
-(* the code as it is: checkpoints are selected by `to_seq <= from_seq` alone (S9, open finding) *)
-Definition code_params (limit max_refs : N) : params :=
-  {| p_limit := N.to_nat limit; p_max_refs := N.to_nat max_refs; p_fixed := false |}.
+(* the code as it is: limits and checkpoint visibility rule as read from the source (Gen/CompileConsts.v);
+   today the rule is `to_seq <= from_seq` alone (S9, open finding) *)
+Definition code_params (limit max_refs : N) (frame_rule : bool) : params :=
+  {| p_limit := N.to_nat limit; p_max_refs := N.to_nat max_refs; p_fixed := frame_rule |}.
 
-Definition model_obs (limit max_refs : N) (c : case) : list N :=
-  enc_outcome (compile (code_params limit max_refs) (texts_of (c_runs c)) (c_log c) (c_anchor c)).
-Definition check_case (limit max_refs : N) (c : case) : bool :=
-  valid_log (c_log c) && lN_eqb (model_obs limit max_refs c) (c_expect c).
+Definition model_obs (limit max_refs : N) (frame_rule : bool) (c : case) : list N :=
+  enc_outcome (compile (code_params limit max_refs frame_rule) (texts_of (c_runs c)) (c_log c) (c_anchor c)).
+Definition check_case (limit max_refs : N) (frame_rule : bool) (c : case) : bool :=
+  valid_log (c_log c) && lN_eqb (model_obs limit max_refs frame_rule c) (c_expect c).
